@@ -36,6 +36,23 @@ def main():
     try:
         vlib.prepare(rep)
         mod.run(rep, tier, seed)
+        if tier == "quick" and rep.violations and all(nofail for what, path, nofail in rep.violations) and os.environ.get("VERIF_NO_SEARCH") != "1":
+            # a proof obligation or a correspondence is broken, but the quick generators found no input on which the
+            # property itself fails: search with the thorough budget (other seed) before settling for no-failing-input-found
+            vlib.log("obligation / correspondence broken without a failing input: searching with the thorough budget")
+            rep2 = vlib.Report(pid, tier, "%s-search" % seed, keep_old=True)
+            try:
+                mod.run(rep2, "thorough", seed + 7919)
+            except Exception:
+                traceback.print_exc()
+            concrete = [v for v in rep2.violations if not v[2]]
+            if concrete:
+                rep2.notes["search"] = "the quick tier found a broken obligation / correspondence only; this failing input was found by the search with the thorough budget"
+                rep2.violations = concrete + [v for v in rep.violations]
+                rep2.t0 = rep.t0
+                rep = rep2
+            else:
+                rep.notes["search"] = "no failing input found by the quick tier nor by the search with the thorough budget (%d further evaluations)" % rep2.cov.get("evaluations", 0)
     except Exception as e:
         traceback.print_exc()
         rep.violation("check crashed: %r" % (e,), {"kind": "harness-error", "trace": traceback.format_exc()}, nofail=True)
